@@ -16,7 +16,8 @@ RULE = ("case = generated 2D/3D plotfile x 4-10 selections (field selector in {n
         "level > limit, box index >= n, wrong-length mask, negative field index), each multi-box selection read "
         "through pool.map under a drawn SimPool schedule; non-trivial = a multi-box selection ran as >=2 pool "
         "tasks, or the level's layout is multi-file/non-monotone; distinct = hash(world, selections, schedules)")
-ASSUMPTIONS = ["independent reader/model is the oracle", "payloads unique per cell (attributable values)"]
+ASSUMPTIONS = ["independent reader/model is the oracle", "payloads unique per cell (attributable values)",
+               "index spaces start at 0, as the pinned reader assumes throughout (grid sizes from the upper domain corner)"]
 
 
 def run_case(ctx):
